@@ -110,62 +110,12 @@ Proof.
   repeat split; auto. now rewrite L4, L2.
 Qed.
 
-(** ** what does not hold *)
+(** ** the root lies halfway along a longest tip-to-tip path (statement used by the examples
+    and by (iv)) *)
 Local Open Scope string_scope.
 Definition Ez (l : Q) : einfo := mkE l nilv nilv [].
 Definition tipn (n : string) : utree := UNode n [] [None].
 
-(** ((a:3,x:0):1,b:0,c:0); *)
-Definition mp_w1 : utree :=
-  UNode "" [] [Some (Ez 1%Q, UNode "" [] [None; Some (Ez 3%Q, tipn "a"); Some (Ez 0%Q, tipn "x")]);
-               Some (Ez 0%Q, tipn "b"); Some (Ez 0%Q, tipn "c")].
-(** ((a:1,b:1):1,c:0,d:0); *)
-Definition mp_w2 : utree :=
-  UNode "" [] [Some (Ez 1%Q, UNode "" [] [None; Some (Ez 1%Q, tipn "a"); Some (Ez 1%Q, tipn "b")]);
-               Some (Ez 0%Q, tipn "c"); Some (Ez 0%Q, tipn "d")].
-(** (a:0,b:0,c:0); *)
-Definition mp_w3 : utree :=
-  UNode "" [] [Some (Ez 0%Q, tipn "a"); Some (Ez 0%Q, tipn "b"); Some (Ez 0%Q, tipn "c")].
-
-Definition has_entry (a b : string) (d : Q) (l : list (string * string * Q)) : bool :=
-  existsb (fun x => String.eqb (fst (fst x)) a && String.eqb (snd (fst x)) b && qeqb (snd x) d) l.
-
-Lemma has_entry_In a b d d' l : In (a, b, d') l -> (d == d')%Q -> has_entry a b d l = true.
-Proof.
-  intros H E. unfold has_entry. apply existsb_exists. exists (a, b, d'). split; auto.
-  simpl. rewrite !String.eqb_refl. simpl. unfold qeqb. apply Qeq_bool_iff. now symmetry.
-Qed.
-
-(** tip-to-tip path lengths are not preserved: a -- b goes from 4 to 6 *)
-Theorem reroot_midpoint_dists_refuted :
-  exists t t',
-    wf t = true /\ 3 <= degree t /\ NoDup (leaves t) /\
-    (forall x, In x (bsplits t) -> (0 <= elen (fst (fst x)))%Q) /\
-    reroot_midpoint t = Ok t' /\
-    ~ dists_equiv (pairdists len0 t') (pairdists len0 t).
-Proof.
-  exists mp_w1.
-  destruct (reroot_midpoint mp_w1) as [t'|] eqn:E; [|vm_compute in E; discriminate].
-  exists t'. repeat split.
-  - vm_compute; lia.
-  - vm_compute. repeat constructor; simpl; intuition discriminate.
-  - intros x Hx. vm_compute in Hx. repeat (destruct Hx as [<-|Hx]; [vm_compute; discriminate|]). destruct Hx.
-  - intros H. vm_compute in E. inversion E; subst t'. clear E.
-    assert (Hin : In ("a", "b", (24 # 4)%Q) (pairdists len0
-       (UNode "" []
-            [Some (mkE (2 # 2) (-1) (-1) [],
-                UNode "" [] [Some (mkE 3 (-1) (-1) [], UNode "a" [] [None]);
-                             Some (mkE 0 (-1) (-1) [], UNode "x" [] [None]); None]);
-             Some (mkE (4 # 2) (-1) (-1) [],
-                UNode "" [] [Some (mkE 0 (-1) (-1) [], UNode "b" [] [None]);
-                             Some (mkE 0 (-1) (-1) [], UNode "c" [] [None]); None])]))).
-    { vm_compute. auto. }
-    destruct (dists_equiv_In _ _ H _ _ _ Hin) as [d' [Hd' Ed]].
-    pose proof (has_entry_In _ _ _ _ _ Hd' Ed) as Hh. vm_compute in Hh. discriminate.
-Qed.
-
-(** the root is not halfway along a longest path: no pair of tips at the largest distance D
-    has both tips at depth D/2 *)
 Definition halfway (t t' : utree) : Prop :=
   exists a b d da db,
     In (a, b, d) (pairdists len0 t) /\
@@ -181,45 +131,39 @@ Definition halfwayb (t t' : utree) : bool :=
              existsb (fun u => String.eqb (fst u) (fst (fst x)) && qeqb (snd u) (snd x * (1 # 2))%Q) ds &&
              existsb (fun u => String.eqb (fst u) (snd (fst x)) && qeqb (snd u) (snd x * (1 # 2))%Q) ds) pd.
 
-Lemma halfway_halfwayb t t' : halfway t t' -> halfwayb t t' = true.
+Lemma halfwayb_halfway t t' : halfwayb t t' = true -> halfway t t'.
 Proof.
-  intros (a & b & d & da & db & H1 & H2 & H3 & H4 & H5 & H6).
-  unfold halfwayb. apply existsb_exists. exists (a, b, d). split; auto. simpl.
-  apply andb_true_iff; split; [apply andb_true_iff; split|].
-  - apply forallb_forall. intros y Hy. apply Qle_bool_iff. now apply H2.
-  - apply existsb_exists. exists (a, da). split; auto. simpl. rewrite String.eqb_refl. simpl.
-    unfold qeqb. now apply Qeq_bool_iff.
-  - apply existsb_exists. exists (b, db). split; auto. simpl. rewrite String.eqb_refl. simpl.
-    unfold qeqb. now apply Qeq_bool_iff.
+  unfold halfwayb. intros H. apply existsb_exists in H as [[[a b] d] [H1 H2]]. simpl in H2.
+  apply andb_true_iff in H2 as [H2 H4]. apply andb_true_iff in H2 as [H2 H3].
+  apply existsb_exists in H3 as [[a' da] [H3 H3']]. apply existsb_exists in H4 as [[b' db] [H4 H4']].
+  simpl in *. apply andb_true_iff in H3' as [Ea Eda]. apply andb_true_iff in H4' as [Eb Edb].
+  apply String.eqb_eq in Ea, Eb. subst a' b'.
+  exists a, b, d, da, db. repeat split; auto.
+  - intros x Hx. rewrite forallb_forall in H2. apply Qle_bool_iff. now apply H2.
+  - unfold qeqb in Eda. now apply Qeq_bool_iff.
+  - unfold qeqb in Edb. now apply Qeq_bool_iff.
 Qed.
 
-Theorem reroot_midpoint_halfway_refuted :
-  exists t t',
-    wf t = true /\ 3 <= degree t /\ NoDup (leaves t) /\
-    (forall x, In x (bsplits t) -> (0 <= elen (fst (fst x)))%Q) /\
-    reroot_midpoint t = Ok t' /\
-    ~ halfway t t'.
-Proof.
-  exists mp_w2.
-  destruct (reroot_midpoint mp_w2) as [t'|] eqn:E; [|vm_compute in E; discriminate].
-  exists t'. vm_compute in E. inversion E; subst t'. clear E. repeat split.
-  - vm_compute; lia.
-  - vm_compute. repeat constructor; simpl; intuition discriminate.
-  - intros x Hx. vm_compute in Hx. repeat (destruct Hx as [<-|Hx]; [vm_compute; discriminate|]). destruct Hx.
-  - intros H. apply halfway_halfwayb in H. vm_compute in H. discriminate.
-Qed.
+(** the three witnesses of the defects that were repaired in /repo:
+    ((a:3,x:0):1,b:0,c:0);   ((a:1,b:1):1,c:0,d:0);   (a:0,b:0,c:0); *)
+Definition mp_w1 : utree :=
+  UNode "" [] [Some (Ez 1%Q, UNode "" [] [None; Some (Ez 3%Q, tipn "a"); Some (Ez 0%Q, tipn "x")]);
+               Some (Ez 0%Q, tipn "b"); Some (Ez 0%Q, tipn "c")].
+Definition mp_w2 : utree :=
+  UNode "" [] [Some (Ez 1%Q, UNode "" [] [None; Some (Ez 1%Q, tipn "a"); Some (Ez 1%Q, tipn "b")]);
+               Some (Ez 0%Q, tipn "c"); Some (Ez 0%Q, tipn "d")].
+Definition mp_w3 : utree :=
+  UNode "" [] [Some (Ez 0%Q, tipn "a"); Some (Ez 0%Q, tipn "b"); Some (Ez 0%Q, tipn "c")].
 
-(** all branches of length 0: the model mirrors the Go panic (index -1) as an error *)
-Theorem reroot_midpoint_all_zero_refuted :
-  exists t m,
-    wf t = true /\ 3 <= degree t /\ NoDup (leaves t) /\
-    (forall x, In x (bsplits t) -> (elen (fst (fst x)) == 0)%Q) /\
-    reroot_midpoint t = Err m /\
-    m = "panic: runtime error: index out of range [-1]".
+Lemma midpoint_examples :
+  (exists t', reroot_midpoint mp_w1 = Ok t' /\ halfway mp_w1 t' /\
+              matrix_eqb (dist_matrix len0 t') (dist_matrix len0 mp_w1) = true) /\
+  (exists t', reroot_midpoint mp_w2 = Ok t' /\ halfway mp_w2 t' /\
+              matrix_eqb (dist_matrix len0 t') (dist_matrix len0 mp_w2) = true) /\
+  reroot_midpoint mp_w3 = Err "cannot reroot at midpoint: all tip to tip paths have a null length".
 Proof.
-  exists mp_w3, "panic: runtime error: index out of range [-1]".
-  split; [reflexivity|]. split; [vm_compute; lia|]. split; [|split; [|split; [|reflexivity]]].
-  - vm_compute. repeat constructor; simpl; intuition discriminate.
-  - intros x Hx. vm_compute in Hx. repeat (destruct Hx as [<-|Hx]; [reflexivity|]). destruct Hx.
+  split; [|split].
+  - eexists. split; [vm_compute; reflexivity|]. split; [apply halfwayb_halfway|]; vm_compute; reflexivity.
+  - eexists. split; [vm_compute; reflexivity|]. split; [apply halfwayb_halfway|]; vm_compute; reflexivity.
   - vm_compute. reflexivity.
 Qed.
